@@ -125,6 +125,8 @@ pub struct Seen<'a> {
     pub after_end: bool,
     /// index of the call (0 = constructor) that carries the fault / layout deviation, if any
     pub deviation_call: Option<usize>,
+    /// indices of all calls that carry a fault / layout deviation
+    pub deviation_calls: Vec<usize>,
 }
 
 pub type Oracle = Arc<dyn Fn(&Seen<'_>, &mut Stats) -> Option<(String, String)> + Send + Sync>;
@@ -253,7 +255,7 @@ impl Model for E1Model {
         };
         let item = if s.constructed { Some(s.steps as usize) } else { None };
         let after_end_call = s.constructed && r.end == RefEnd::Done && s.steps as usize >= r.items.len();
-        let deviation_call = script.iter().enumerate().position(|(k, &i)| {
+        let is_dev = |k: usize, i: u16| -> bool {
             if i == MID {
                 false
             } else if i >= W_BASE {
@@ -263,8 +265,10 @@ impl Model for E1Model {
             } else {
                 case.menu[i as usize].deviation
             }
-        });
-        let seen = Seen { case, script: &steps_list, reference: &r, obs: &obs, item, after_end: after_end_call && s.steps as usize > r.items.len(), deviation_call };
+        };
+        let deviation_calls: Vec<usize> = script.iter().enumerate().filter(|(k, &i)| is_dev(*k, i)).map(|(k, _)| k).collect();
+        let deviation_call = deviation_calls.first().copied();
+        let seen = Seen { case, script: &steps_list, reference: &r, obs: &obs, item, after_end: after_end_call && s.steps as usize > r.items.len(), deviation_call, deviation_calls };
         let verdict = self.with_stats(|st| {
             st.transitions += 1;
             st.traces += 1;
